@@ -67,6 +67,7 @@ type Frame struct {
 }
 
 type Exec struct {
+	curBVars   []*Term // bound variables of the quantifier bodies being evaluated (for assumeQ)
 	shared     map[string]bool
 	sharedAt   map[*Object][][]int // shared fields havocked at a lock acquisition (exempt from the frame)
 	retGhosts  map[string]EV
@@ -536,6 +537,41 @@ func (x *Exec) instantiationAid(pc []*Term, goal *Term) []*Term {
 		}
 	}
 	return out
+}
+
+// assumeQ adds a definitional fact to the state; when it mentions variables bound by an enclosing quantifier of the
+// expression being evaluated it is closed universally over them first.
+func (x *Exec) assumeQ(st *State, t *Term) {
+	if !t.hasBound {
+		st.Assume(t)
+		return
+	}
+	q := t
+	for i := len(x.curBVars) - 1; i >= 0; i-- {
+		if x.tb.mentions(q, x.curBVars[i]) {
+			q = x.tb.Forall(x.curBVars[i], q)
+		}
+	}
+	if q.hasBound {
+		return // a bound variable that is not in scope: cannot be stated; dropping a fact is sound
+	}
+	mark := fmt.Sprintf("assumeQ:%d", q.id)
+	if _, done := st.ghost[mark]; done {
+		return
+	}
+	st.ghost[mark] = x.tb.True()
+	st.Assume(q)
+}
+
+// keyIdx: index of a string key in the modelled map: injective (instance of the inverse added at every use), below 2^20.
+func (x *Exec) keyIdx(st *State, key *Term) *Term {
+	tb := x.tb
+	f := tb.DeclareFun("map.keyidx", []Sort{SInt}, BV(64))
+	inv := tb.DeclareFun("map.idxkey", []Sort{BV(64)}, SInt)
+	idx := tb.App(f, key)
+	x.assumeQ(st, tb.Eq(tb.App(inv, idx), key))
+	x.assumeQ(st, tb.BVCmp("bvult", idx, tb.BVi(64, 1<<20)))
+	return idx
 }
 
 // aidPoints: ground index terms at which quantified hypotheses are instantiated for the aided portfolio arm:
@@ -1424,10 +1460,41 @@ func (x *Exec) step(fr *Frame, st *State, ins ssa.Instruction) bool {
 		}
 		fr.env[v] = &FuncV{Fn: fn, Binds: binds, IsNil: tb.False(), Id: tb.Intc(int64(2000 + x.nextObj)), Sig: fn.Signature, Name: fn.String()}
 	case *ssa.MakeMap, *ssa.MakeChan:
+		if mm, isMap := v.(*ssa.MakeMap); isMap {
+			if mt, ok := mm.Type().Underlying().(*types.Map); ok && isString(mt.Key()) {
+				if _, okLeaves := leafPaths(mt.Elem()); okLeaves {
+					if _, isStruct := structOf(mt.Elem()); isStruct {
+						o := x.newArrayObject(st, fr.fn.Name()+".map."+mm.Name(), mt.Elem(), tb.BVi(64, 1<<20), false, true)
+						os := st.mem[o]
+						n := &ObjState{Leaves: map[string]*Content{}, ALen: os.ALen}
+						for k, c := range os.Leaves {
+							n.Leaves[k] = c
+						}
+						n.Leaves["#present"] = x.ContentConst(tb.False())
+						st.mem[o] = n
+						fr.env[mm] = &MapV{Obj: o, IsNil: tb.False(), Key: mt.Key(), Elem: mt.Elem()}
+						x.builtinModels["map[string]struct modelled as an array of values indexed by an injective key index below 2^20, plus a presence bit"] = true
+						break
+					}
+				}
+			}
+		}
 		ov := &OpaqueV{T: v.(ssa.Value).Type(), Id: tb.Fresh("opaque", SInt), IsNil: tb.False()}
 		fr.env[v.(ssa.Value)] = ov
 		st.ghost[fmt.Sprintf("map:%d", ov.Id.id)] = tb.BVi(64, 0)
 	case *ssa.MapUpdate:
+		if m, ok := x.value(fr, st, v.Map).(*MapV); ok {
+			idx := x.keyIdx(st, x.value(fr, st, v.Key).(*Term))
+			x.writeElem(st, m.Obj, idx, nil, m.Elem, x.value(fr, st, v.Value))
+			os := st.mem[m.Obj]
+			n := &ObjState{Leaves: map[string]*Content{}, ALen: os.ALen, Cells: os.Cells}
+			for k, c := range os.Leaves {
+				n.Leaves[k] = c
+			}
+			n.Leaves["#present"] = x.StoreC(os.Leaves["#present"], idx, tb.True())
+			st.mem[m.Obj] = n
+			break
+		}
 		// ghost size only; the key is assumed absent (protocol assumption, listed)
 		if m, ok := x.value(fr, st, v.Map).(*OpaqueV); ok {
 			sz := x.mapSize(st, m)
@@ -1435,9 +1502,39 @@ func (x *Exec) step(fr *Frame, st *State, ins ssa.Instruction) bool {
 		}
 		x.builtinModels["map insert (ghost size + 1, key assumed absent)"] = true
 	case *ssa.Lookup:
+		if m, ok := x.value(fr, st, v.X).(*MapV); ok {
+			idx := x.keyIdx(st, x.value(fr, st, v.Index).(*Term))
+			val := x.readElem(st, m.Obj, idx, nil, m.Elem)
+			present := x.Select(st.mem[m.Obj].Leaves["#present"], idx)
+			if v.CommaOk {
+				fr.env[v] = &TupleV{Vals: []SVal{val, present}}
+			} else {
+				// an absent key yields the zero value; the cells of absent keys are unconstrained here, which only adds behaviours
+				fr.env[v] = val
+			}
+			break
+		}
 		x.warn("map/string lookup havocked")
 		fr.env[v] = x.symbolic(st, v.Type(), "lookup", false, 0)
 	case *ssa.Range, *ssa.Next:
+		if rg, isR := v.(*ssa.Range); isR {
+			if m, ok := x.value(fr, st, rg.X).(*MapV); ok {
+				fr.env[rg] = m // the iterator is the map itself: every Next yields an arbitrary present entry
+				break
+			}
+		}
+		if nx, isN := v.(*ssa.Next); isN {
+			if m, ok := x.value(fr, st, nx.Iter).(*MapV); ok {
+				okT := tb.Fresh("range.ok", SBool)
+				key := tb.Fresh("range.key", SInt)
+				st.Assume(tb.mk(">=", SBool, nil, "", key, tb.Intc(0)))
+				idx := x.keyIdx(st, key)
+				st.Assume(tb.Implies(okT, x.Select(st.mem[m.Obj].Leaves["#present"], idx)))
+				val := x.readElem(st, m.Obj, idx, nil, m.Elem)
+				fr.env[nx] = &TupleV{Vals: []SVal{okT, key, val}}
+				break
+			}
+		}
 		x.warn("range over map/string havocked")
 		// what the iteration yields is arbitrary pre-existing state (keys / values are not fresh objects)
 		fr.env[v.(ssa.Value)] = x.symbolic(st, v.(ssa.Value).Type(), "range", true, 0)
